@@ -1,2 +1,52 @@
-From ZC Require Import Model.Base Model.WireEnc Model.WireDec.
-Example C14_placeholder : True. Proof. exact I. Qed.
+(* C14 - outgoing messages respect size limits and account for every section entry. Statements only.
+   packets_info : Model/WireEnc.v (byte-exact against DNSOutgoing.packets() on every run); the limits 8966 / 1460
+   are Gen.Const.C_MAX_MSG_ABSOLUTE / C_MAX_MSG_TYPICAL, regenerated from const.py. *)
+From ZC Require Import Model.Base Model.PyRec Model.Dict Model.WireEnc Gen.Const Proofs.C14_sizes.
+
+Theorem C14_abs : forall m ps, packets_info m = Ok ps -> Forall (fun p => plen p <= 8966) ps.
+Proof. exact packets_abs_limit. Qed.
+
+Theorem C14_typical : forall m ps, packets_info m = Ok ps ->
+  Forall (fun p => plen p <= 1460 \/ nentries (snd p) = 1%nat) ps.
+Proof. exact packets_typical_limit. Qed.
+
+(* header: id 0 when multicast, the four counts, and the TC bit exactly on every datagram that does not complete a query
+   (the last datagram of a message whose every entry was carried has no TC; responses never have it) *)
+Theorem C14_headers : forall m ps, packets_info m = Ok ps ->
+  forall i p, nth_error ps i = Some p ->
+    firstn 12 (fst p) = header_of m (Nat.eqb (S i) (length ps)
+                                     && completeb (o_questions m) (o_answers m) (o_authorities m) (o_additionals m) ps) (snd p)
+    /\ 12 <= plen p.
+Proof. exact packets_headers_exact. Qed.
+
+(* each entry is carried at most once, in order; exactly once as soon as no datagram is empty of entries *)
+Theorem C14_partition : forall m ps, packets_info m = Ok ps ->
+  (total cq ps <= length (o_questions m))%nat /\ (total ca ps <= length (o_answers m))%nat /\
+  (total cu ps <= length (o_authorities m))%nat /\ (total cd ps <= length (o_additionals m))%nat /\
+  (Forall (fun p => (1 <= nentries (snd p))%nat) ps ->
+     total cq ps = length (o_questions m) /\ total ca ps = length (o_answers m) /\
+     total cu ps = length (o_authorities m) /\ total cd ps = length (o_additionals m)).
+Proof. exact packets_partition. Qed.
+
+Theorem C14_nonempty : forall m ps, packets_info m = Ok ps ->
+  ps <> [] /\ forall i p, nth_error ps i = Some p -> (S i < length ps)%nat -> (1 <= nentries (snd p))%nat.
+Proof. exact packets_nonempty. Qed.
+
+Theorem C14_size_exact : forall m ps, packets_info m = Ok ps ->
+  Forall (fun p => exists s, plen p = e_size s /\ e_size s = 12 + Z.of_nat (length (e_rev s))) ps.
+Proof. exact size_exact_packets. Qed.
+
+Print Assumptions C14_abs.
+Print Assumptions C14_typical.
+Print Assumptions C14_headers.
+Print Assumptions C14_partition.
+Print Assumptions C14_nonempty.
+Print Assumptions C14_size_exact.
+
+(* the statement "TC on every datagram except the last" taken literally fails only outside the quantifier: an entry
+   that does not fit an empty 8966-byte datagram makes packets() stop with an entry-less datagram that still carries TC *)
+Example C14_headers_literal_refuted :
+  exists m ps, packets_info m = Ok ps /\
+    exists i p, nth_error ps i = Some p /\
+      firstn 12 (fst p) <> header_of m (Nat.eqb (S i) (length ps)) (snd p).
+Proof. exact packets_headers_counterexample. Qed.
